@@ -63,7 +63,7 @@ impl Prop for C14 {
         "fault_enumeration"
     }
     fn rule(&self) -> String {
-        "decoders: for every wire type x decoding path x suite, starting from a valid encoding: every truncation, every 1-byte extension, at EVERY position a byte substitution (quick: 8 boundary values; thorough: all 255) and an injected extreme length varint (9 values up to 2^64-1); empty / 1 MiB inputs; every suite's encodings into every other suite's decoders; JSON single-character deletions and replacements. Protocol steps: for each of 14 entry-point groups the FULL PRODUCT of per-argument menus of well-typed hostile values (empty / singleton / missing-one / surplus / very large maps and lists, duplicated values, own or unknown identifiers, identity elements, zero scalars, empty / over-long commitments, thresholds None/0/1/65535, empty / 1 MiB messages) with the caller's own secret state honest. Oracle: no unwind (overflow checks + debug assertions on), no hang. Non-trivial = call executed on a deviating input".into()
+        "decoders: for every wire type x decoding path x suite, starting from a valid encoding: every truncation, every 1-byte extension, at EVERY position a byte substitution (quick: 8 boundary values; thorough: all 255) and an injected extreme length varint (9 values up to 2^64-1); empty / 1 MiB inputs; every suite's encodings into every other suite's decoders; JSON single-character deletions and replacements. Protocol steps: for each of 14 entry-point groups the FULL PRODUCT of per-argument menus of well-typed hostile values (empty / singleton / missing-one / surplus / very large maps and lists, duplicated values, own or unknown identifiers, identity elements, zero scalars, empty / over-long commitments, thresholds None/0/1/65535, empty / 1 MiB messages; commitment vectors of 65 536 / 65 537 entries at every consumer that reads the length first) with the caller's own secret state honest. Oracle: no unwind (overflow checks + debug assertions on), no hang. Non-trivial = call executed on a deviating input".into()
     }
     fn assumptions(&self) -> Vec<String> {
         vec![
